@@ -18,10 +18,14 @@ RULE = ("mixed histories on all 18 versions (rich tracks, every single-field set
 VIEWS = ["Crate", "CrateParentList", "CrateHierarchy", "CrateTrackList", "PerformanceData"]
 
 
-def make_case(cid, rng, schema, n_ops, every):
+def make_case(cid, rng, schema, n_ops, every, shaped=None):
     ops, metas = GH.gen_library_history(rng, schema, n_ops)
     full = [{"op": "create_temporary", "schema": schema}]
     marks = [None]
+    if shaped is not None:
+        pre = GH.first_id_prelude(schema, GH.FIRST_IDS[shaped % len(GH.FIRST_IDS)])
+        full += pre
+        marks += [None] * len(pre)
     last = "create"
     for i, (op, m) in enumerate(zip(ops, metas)):
         full.append(op)
@@ -105,7 +109,7 @@ def run(ctx):
     for schema in ALL_SCHEMAS:
         for k in range(per):
             every = 1 if (k % 4 == 0 or ctx.tier != "quick") else 3
-            cases.append(make_case("w%d" % n, ctx.rng, schema, 20 + (k % 3) * 8, every))
+            cases.append(make_case("w%d" % n, ctx.rng, schema, 20 + (k % 3) * 8, every, shaped=(k // 4 if k % 4 == 2 else None)))
             n += 1
     ctx.sample({"schema": cases[0]["schema"], "ops": [o["op"] for o in cases[0]["ops"]][:16]})
     ctx.assumptions += ["only the encodings the statement lists are judged; columns of unknown meaning (trackCount, ordering, "
